@@ -83,6 +83,7 @@ class Case:
         self.wellformed = True   # placeholder-free terminals
         self.known_key = None    # the case aims at a recorded known finding
         self.rows = None         # row of each gene (None: gene i on row i)
+        self.expect = None       # (template, "differs"|"agrees", why): documented Python/interpreter relation
 
     def cat(self, kind):
         if kind not in self.catmap:
@@ -479,6 +480,40 @@ class Gen:
                     c.kinds = ["R"] * len(genes)
                     c.vectors = [[], []]      # no variable: two empty input vectors (an empty field would be dropped)
                     out.append(c)
+        return out
+
+    def pytable_cases(self):
+        """the documented semantic differences between the Python templates and the interpreter (NOT part of
+        the property, which speaks of the C text): one input on which they differ and one on which they
+        agree, per template.  `expect` is checked and reported in the evidence, never an alarm."""
+        spec = [
+            ("real_mod", [-7.0, 3.0], "differs", "x % y has the sign of the divisor, fmod(x, y) the sign of the dividend"),
+            ("real_mod", [7.0, 3.0], "agrees", "operands of the same sign"),
+            ("real_idiv", [1.0, 0.1], "differs", "x // y is the floor of the EXACT quotient (9.0), floor(x / y) rounds first (10.0)"),
+            ("real_idiv", [7.0, 2.0], "agrees", "exactly representable quotient"),
+            ("real_ife", [1.0, 1.0000000001, 10.0, 20.0], "differs", "isclose: relative tolerance 1e-9; interpreter: |x - y| < 2 * DBL_EPSILON"),
+            ("real_ife", [1.0, 1.0, 10.0, 20.0], "agrees", "equal operands"),
+            ("real_ifz", [1e-12, 10.0, 20.0], "differs", "abs(x) < 1e-10; interpreter: |x| < 2 * DBL_EPSILON"),
+            ("real_ifz", [0.0, 10.0, 20.0], "agrees", "zero"),
+            ("real_ifb", [2.0, 3.0, 1.0, 10.0, 20.0], "differs", "b <= x <= c is false whenever b > c; the interpreter tests fmin(b, c) <= x <= fmax(b, c)"),
+            ("real_ifb", [2.0, 1.0, 3.0, 10.0, 20.0], "agrees", "bounds in order"),
+        ]
+        out = []
+        for ident, xs, expect, why in spec:
+            p = [x for x in self.cat.functions("R") if x[0] == ident and set(x[1]) == {"R"}]
+            if not p:
+                continue
+            c = Case("pytable")
+            cc = c.cat("R")
+            genes = [[c.sym_index(self.function_sym(c, p[0])), None, []]]
+            for j in range(len(xs)):
+                genes.append([c.sym_index({"k": "V", "name": b"X%d" % (j + 1), "cat": cc}), None, []])
+                genes[0][2].append(len(genes) - 1)
+            c.genes = [tuple(g) for g in genes]
+            c.kinds = ["R"] * len(genes)
+            c.vectors = [[bits_of(x) for x in xs], [bits_of(x) for x in xs]]
+            c.expect = (ident, expect, why)
+            out.append(c)
         return out
 
     def rowshare_cases(self, n, depth=4):
@@ -944,6 +979,81 @@ def integer_literals_for_reals(case, fmt, catalog):
             walk(a)
     walk(0)
     return bad
+
+
+def align_ids(a, b, table):
+    """walk two expressions of the same shape; identifiers may differ (recorded in `table`, consistently),
+    numbers are compared by value; False when the shapes differ"""
+    if a[0] != b[0]:
+        return False
+    k = a[0]
+    if k == "id":
+        if a[1] != b[1]:
+            if table.setdefault(a[1], b[1]) != b[1]:
+                return False
+        return True
+    if k == "num":
+        try:
+            return float(a[1]) == float(b[1])
+        except ValueError:
+            return a[1] == b[1]
+    if k in ("str", "hole"):
+        return a[1] == b[1]
+    if k == "call":
+        return align_ids(a[1], b[1], table) and len(a[2]) == len(b[2]) and all(align_ids(x, y, table) for x, y in zip(a[2], b[2]))
+    if k == "mem":
+        return a[2] == b[2] and align_ids(a[1], b[1], table)
+    if k == "un":
+        return a[1] == b[1] and align_ids(a[2], b[2], table)
+    if k == "bin":
+        return a[1] == b[1] and align_ids(a[2], b[2], table) and align_ids(a[3], b[3], table)
+    if k == "cond":
+        return all(align_ids(x, y, table) for x, y in zip(a[1:], b[1:]))
+    return False
+
+
+def mql_name_table(catalog):
+    """function-name table C -> MQL regenerated from the templates, and the classes whose MQL template is
+    not the C template modulo names (NormalizeDouble(x, 8) == 0 instead of fabs(x) < 2 * DBL_EPSILON ...)"""
+    table, different = {}, []
+    for ident in catalog.order:
+        info = catalog.infos[ident]
+        if info["arity"] == 0:
+            continue
+        dc, dm = info["disp"][0], info["disp"][2]
+        if dc[0] != "text" or dm[0] != "text":
+            continue
+        try:
+            a = parse_text(pieces_text(dc[1], None), "c")
+            b = parse_text(pieces_text(dm[1], None), "mql")
+        except ParseError:
+            different.append(ident)
+            continue
+        t = dict(table)
+        if align_ids(a, b, t):
+            table = t
+        else:
+            different.append(ident)
+    return table, different
+
+
+def rename_ids(e, table):
+    k = e[0]
+    if k == "id":
+        return ("id", table.get(e[1], e[1]))
+    if k in ("num", "str", "hole"):
+        return e
+    if k == "call":
+        return ("call", rename_ids(e[1], table), [rename_ids(x, table) for x in e[2]])
+    if k == "mem":
+        return ("mem", rename_ids(e[1], table), e[2])
+    if k == "un":
+        return ("un", e[1], rename_ids(e[2], table))
+    if k == "bin":
+        return ("bin", e[1], rename_ids(e[2], table), rename_ids(e[3], table))
+    if k == "cond":
+        return ("cond",) + tuple(rename_ids(x, table) for x in e[1:])
+    return e
 
 
 def show_ast(e):
